@@ -1796,14 +1796,17 @@ class CodeGenerator(NodeVisitor):
                 self.write("))")
 
     def visit_Slice(self, node: nodes.Slice, frame: Frame) -> None:
-        if node.start is not None:
-            self.visit(node.start, frame)
-        self.write(":")
-        if node.stop is not None:
-            self.visit(node.stop, frame)
-        if node.step is not None:
-            self.write(":")
-            self.visit(node.step, frame)
+        # ``slice(...)`` instead of ``a:b`` is also valid inside a tuple
+        # of subscripts such as ``x[1:2, 3]``.
+        self.write("slice(")
+        for idx, part in enumerate((node.start, node.stop, node.step)):
+            if idx:
+                self.write(", ")
+            if part is not None:
+                self.visit(part, frame)
+            else:
+                self.write("None")
+        self.write(")")
 
     @contextmanager
     def _filter_test_common(
